@@ -42,3 +42,118 @@ c.returns("area_then_digest", "HEXMAP(FILE(output_file)) == HEX_PUT(HEX_EMPTY(),
 c.raises("GeneratorError")
 c.raises("intelhex.AddressOverlapError")
 c.raises("FileNotFoundError")
+
+# the command entry point: arguments are passed on by POSITION - which value lands in which field is part of the post
+c = Contract(F, "main", ["C12"])
+c.param("mpi", Const("generate"))
+c.param("output_file", PathStr())
+c.param("vendor_name", Str())
+c.param("class_name", Str())
+c.param("address", Int())
+c.param("size", Int())
+c.param("downgrade_prevention_enabled", Bool())
+c.param("independent_updates", Bool())
+c.param("signature_verification", OneOf(NoneT(), "update", "update-and-boot"))
+c.param("file", NoneT())
+c.requires("size48", "size >= 48")
+c.requires("addr", "address >= 0")
+c.returns("record_of_the_named_arguments", "HEXMAP(FILE(output_file)) == HEX_PUT(HEX_EMPTY(), address, mpi_record(vendor_name, class_name, "
+                                            "downgrade_prevention_enabled, independent_updates, signature_verification, size))")
+c.raises("FileNotFoundError")
+c.raises("GeneratorError")
+c.call_by_keyword = True
+
+
+# ================================================================================================
+# B — bounded stand-in through the command entry point, hex files read back with the independent reader
+# ================================================================================================
+def _expected_record(vendor, cls, dp, iu, sv, size):
+    from contracts.specs_native import UUID5, NAMESPACE_DNS
+    vid = UUID5(NAMESPACE_DNS, vendor)
+    cid = UUID5(vid, cls)
+    return bytes([1, 2 if dp else 1, 2 if iu else 1, {None: 1, "update": 2, "update-and-boot": 3}[sv]]) + b"\xff" * 12 + vid + cid + b"\xff" * (size - 48)
+
+
+def bounded(ctx):
+    import hashlib, importlib, itertools
+    from bounded.harness import Bounded
+    from bounded import hexread
+    quick = ctx["tier"] == "quick"
+    B = Bounded(ctx, rule="cmd_mpi.main (generate: all 2x2x3 policies x names incl. empty / non-ASCII / long x addresses and sizes; merge: sets of up to 8 records placed inside, "
+                          "on the border of, one byte outside the area, overlapping adjacent and NON-adjacent inputs in every argument order of the overlapping pair) with the "
+                          "hex files read back by the independent HEX reader; distinct by case",
+                bound="generate: 12 policies x 5 name pairs x 4 (address, size); merge: 0..8 records, ~60 placements", budget_s=60 if quick else 300)
+    m = importlib.import_module("suit_generator.cmd_mpi")
+    GeneratorError = importlib.import_module("suit_generator.exceptions").GeneratorError
+    d = B.fresh_dir("mpi")
+    names = [("nordicsemi.com", "nRF54H20_sample_app"), ("", ""), ("vendor-é中", "class ü"), ("v" * 300, "c" * 70), ("acme.com", "nRF54H20_sample_app")]
+    n = 0
+    for (dp, iu, sv), (vendor, cls), (addr, size) in itertools.product(itertools.product([False, True], [False, True], [None, "update", "update-and-boot"]), names,
+                                                                        [(0, 48), (0x0E1EEC00, 48), (0xFFF0, 64), (0xFFFFFF00, 100)]):
+        n += 1
+        if quick and n % 3:
+            continue
+        out = f"{d}/g.hex"
+        case = {"op": "generate", "vendor": vendor[:20], "class": cls[:20], "dp": dp, "iu": iu, "sv": sv, "address": addr, "size": size}
+        B.case(("generate", dp, iu, sv, vendor[:8], addr, size), sample=case if n in (3, 90) else None)
+        try:
+            m.main(mpi="generate", output_file=out, vendor_name=vendor, class_name=cls, address=addr, size=size, downgrade_prevention_enabled=dp,
+                   independent_updates=iu, signature_verification=sv, file=None)
+        except Exception as e:  # noqa: BLE001
+            B.fail("generate-succeeds", case, f"{type(e).__name__}: {e}")
+            continue
+        mem = hexread.parse_file(out)
+        want = _expected_record(vendor, cls, dp, iu, sv, size)
+        got = bytes(mem.get(addr + i, -1) & 0xFF if (addr + i) in mem else 0 for i in range(size))
+        if set(mem) != set(range(addr, addr + size)) or got != want:
+            B.fail("record-has-the-device-layout-at-the-given-address", case, f"bytes 0..4 {got[:4].hex()} expected {want[:4].hex()}; {len(mem)} bytes written")
+    # merge
+    base, area = 0x1000, 48 * 8
+
+    def rec_file(i, at, size=48):
+        p = f"{d}/r{i}.hex"
+        m.MpiGenerator.generate(p, f"v{i}", f"c{i}", at, size, False, True, None)
+        return p
+
+    def run_merge(tag, placements, expect_reject):
+        files = [rec_file(i, at, sz) for i, (at, sz) in enumerate(placements)]
+        out = f"{d}/m.hex"
+        case = {"op": "merge", "case": tag, "placements": [[hex(a), s] for a, s in placements]}
+        B.case(("merge", tag))
+        try:
+            m.main(mpi="merge", output_file=out, address=base, size=area, file=files)
+        except Exception as e:  # noqa: BLE001
+            if not expect_reject:
+                B.fail("valid-merge-succeeds", case, f"{type(e).__name__}: {e}")
+            return
+        if expect_reject:
+            B.fail("input-outside-or-overlapping-is-rejected", case, "accepted")
+            return
+        mem = hexread.parse_file(out)
+        want = bytearray(b"\xff" * area)
+        for i, (at, sz) in enumerate(placements):
+            want[at - base: at - base + sz] = _expected_record(f"v{i}", f"c{i}", False, True, None, sz)
+        want = bytes(want) + hashlib.sha256(bytes(want)).digest()
+        got = bytes(mem.get(base + i, 0) & 0xFF for i in range(len(want)))
+        if set(mem) != set(range(base, base + len(want))) or got != want:
+            B.fail("area-with-every-record-at-its-address-then-sha256", case, "merged area or digest differs")
+
+    slots = [(base + 48 * i, 48) for i in range(8)]
+    run_merge("none", [], False)
+    for k in (1, 2, 3, 8):
+        run_merge(f"first-{k}", slots[:k], False)
+    run_merge("reversed-order", list(reversed(slots[:5])), False)
+    run_merge("on-lower-border", [(base, 48)], False)
+    run_merge("on-upper-border", [(base + area - 48, 48)], False)
+    run_merge("one-byte-below", [(base - 1, 48)], True)
+    run_merge("one-byte-above", [(base + area - 47, 48)], True)
+    run_merge("two-bytes-above", [(base + area - 46, 48)], True)
+    run_merge("larger-record-reaching-outside", [(base + area - 48, 49)], True)
+    run_merge("adjacent-overlap", [slots[0], (slots[0][0] + 47, 48)], True)
+    # the overlapping pair NOT adjacent in argument order, in both orders, with 1..5 records in between
+    for between in range(1, 6):
+        mid = slots[2: 2 + between]
+        run_merge(f"non-adjacent-overlap-{between}-a", [slots[0]] + mid + [(slots[0][0] + 40, 48)], True)
+        run_merge(f"non-adjacent-overlap-{between}-b", [(slots[0][0] + 40, 48)] + mid + [slots[0]], True)
+        run_merge(f"non-adjacent-one-byte-overlap-{between}", [(slots[1][0] + 47, 48)] + mid[1:] + [slots[1]], True) if between > 1 else None
+    return B.done()
